@@ -592,9 +592,22 @@ fn run_typed<C: SimColor + ColorMapping>(sc: &Scenario, opts: &Opts) -> RunOut {
                 }
                 Step::ContinueOnClone => {
                     out.probes |= probe("continued_on_clone");
-                    match guarded(|| display.clone()) {
+                    // alternately `clone()` and `clone_from()` into a display whose flags differ
+                    // (a clone must behave like the original, check flags included)
+                    let via_clone_from = si % 2 == 1;
+                    match guarded(|| {
+                        if via_clone_from {
+                            let mut t = MockDisplay::<C>::new();
+                            t.set_allow_overdraw(!model.allow_overdraw);
+                            t.set_allow_out_of_bounds_drawing(!model.allow_oob);
+                            t.clone_from(&display);
+                            t
+                        } else {
+                            display.clone()
+                        }
+                    }) {
                         Ok(c) => display = c,
-                        Err(e) => viol = Some(mk(si, "unexpected_panic", format!("clone panicked: {}", e))),
+                        Err(e) => viol = Some(mk(si, "unexpected_panic", format!("clone / clone_from panicked: {}", e))),
                     }
                 }
                 Step::SetPixels { pts, c } => {
